@@ -608,4 +608,37 @@ theorem noShare_of_private {w : World} (hp : PendingPrivate w) {X Y : Nat} (hXY 
   intro vX vY key info k a n hvX hvY hm hpr s hs hr
   exact hp X vX key info k a n hvX hm hpr s (Or.inl ⟨Y, vY, fun e => hXY e.symm, hvY, hs⟩) hr
 
+/-- `take` moves the relation with the value: the fresh handle stands where the taken one stood. -/
+theorem noShare_take {w w' : World} {i : Nat} (h : w.step (.take i) = some w') {X : Nat} (hX : X ≠ w.iovs.length)
+    (hXi : X ≠ i) : (NoShare w X i → NoShare w' X w.iovs.length) ∧ (NoShare w i X → NoShare w' w.iovs.length X) := by
+  obtain ⟨v, hv, hiov⟩ := take_iov h
+  refine ⟨?_, ?_⟩
+  · intro hns vX vY key info k a n hvX hvY
+    rw [hiov, if_neg hX, if_neg hXi] at hvX
+    rw [hiov, if_pos rfl] at hvY
+    cases hvY
+    exact hns vX v key info k a n hvX hv
+  · intro hns vX vY key info k a n hvX hvY
+    rw [hiov, if_pos rfl] at hvX
+    rw [hiov, if_neg hX, if_neg hXi] at hvY
+    cases hvX
+    exact hns v vY key info k a n hv hvY
+
+/-- A clone inherits what its original shares with third parties. -/
+theorem noShare_clone_other {w w' : World} {i : Nat} (h : w.step (.clone i) = some w') {X : Nat}
+    (hX : X ≠ w.iovs.length) :
+    (NoShare w X i → NoShare w' X w.iovs.length) ∧ (NoShare w i X → NoShare w' w.iovs.length X) := by
+  obtain ⟨v, hv, hiov⟩ := clone_iov h
+  refine ⟨?_, ?_⟩
+  · intro hns vX vY key info k a n hvX hvY
+    rw [hiov, if_neg hX] at hvX
+    rw [hiov, if_pos rfl] at hvY
+    cases hvY
+    exact hns vX v key info k a n hvX hv
+  · intro hns vX vY key info k a n hvX hvY hm hpr
+    rw [hiov, if_pos rfl] at hvX
+    rw [hiov, if_neg hX] at hvY
+    cases hvX
+    exact hns v vY key info k a n hv hvY hm (by rw [← pendingRange_congr (v := v) rfl rfl]; exact hpr)
+
 end Woodpile.Iovec
